@@ -135,6 +135,8 @@ fn normalize_basic_value_for_boundaries(
                 // Scale range [0; 1] to the range of the boundaries
                 let range = (#upper_value - #lower_value).abs();
                 let x = #lower_value + from0to1 * range;
+                // Rounding may push the scaled value slightly above the upper boundary.
+                let x = if x > #upper_value { #upper_value } else { x };
 
                 // Make sure we satisfy the exclusive boundaries
                 let x = #adjust_x_lower;
